@@ -909,7 +909,8 @@ def keyval_model(facts):
                 stubs = {'entry': entry, 'key': K('dup')}
                 if child is not None:
                     stubs['or_insert_with'] = ('ctor', I + 'Table', (T(child[0], child[1], 'p'),))
-                it = RecInterp(Evaluator(facts), {'insert', 'set_prefix'}, set(), stubs=stubs)
+                from .places import PlaceInterp
+                it = PlaceInterp(Evaluator(facts), {'insert', 'set_prefix'}, set(), stubs=stubs)          # (writes through `&mut self.current_table.span` and the like are followed)
                 it.model_mem = True
                 value = ('ctor', I + 'Table', (T(False, False, 'value', ('range', 30, 34)),))     # any item with a span of its own
                 try:
